@@ -141,6 +141,7 @@ type n09Proxy struct {
 	pendingSkip                  bool // a full transfer ended before the follower had received a single record
 	skipAhead                    int  // ... and the next SYNC was accepted as a resume
 	windowOpen                   int  // replication connections currently inside the vulnerable window
+	sentTwice                    string
 }
 
 func n09NewProxy(target string, cuts []int64) (*n09Proxy, error) {
@@ -436,6 +437,7 @@ type n09L2FParser struct {
 	fullConn bool   // a full transfer was accepted on this connection
 	recs     int    // complete records (file or live, payload included) forwarded on this connection
 	recPending bool
+	maxFile  *n09Id
 	closed   bool
 }
 
@@ -555,10 +557,18 @@ func (l *n09L2FParser) feed(b []byte) {
 		}
 		if l.phase != n09PhaseLive {
 			p.filesRecords++
+			fid := n09Id{idx, off}
+			if l.maxFile == nil || l.maxFile.less(fid) {
+				l.maxFile = &fid
+			}
 			continue
 		}
 		p.liveRecords++
 		id := n09Id{idx, off}
+		if l.maxFile != nil && !l.maxFile.less(id) && p.sentTwice == "" {
+			p.sentTwice = fmt.Sprintf("connection %d: record %v was sent with the files (last file record %v) and again on the live stream", l.rc.id, id, *l.maxFile)
+			p.event(l.rc.id, l.phase, "!! %s", p.sentTwice)
+		}
 		if p.startPending {
 			p.startPending = false
 			p.startId = &id
@@ -682,6 +692,7 @@ type n09Info struct {
 	knownDupFlush                      int
 	knownCompactedLog                  int
 	excludedEmptyRotation              int
+	excludedEmptyRingJoin              int
 }
 
 type n09Out struct {
@@ -835,6 +846,7 @@ var n09ReplayMode bool
 func n09Known(key string) bool { return !n09ReplayMode && vIsKnown(key) }
 
 const n09KeyCompactedLog = "C09:leader-compacted-log-does-not-reproduce-leader-state"
+const n09KeyFirstTwice = "C09:first-record-delivered-twice-when-sync-races-with-empty-ring"
 const n09KeyWedged = "C09:follower-wedged-by-append-file-index-hole"
 const n09KeySkipAhead = "C09:aborted-full-transfer-resumes-at-bound-skipping-history"
 const n09KeyCompaction = "C09:full-transfer-after-compaction-loses-hold-created-by-update-request"
@@ -973,6 +985,25 @@ func (e *n09Env) join(op n09Op) error {
 	s.node = node
 	e.mu.Unlock()
 	s.joined++
+	if n09Known(n09KeyFirstTwice) && e.leader.inst.slock.replicationManager.bufferQueue.seq == 0 {
+		// known finding: with an empty ring handleInitSync computes the transfer bound from Aof.aofFileOffset
+		// without a lock; a record logged at that moment is sent with the files and again live. Excluded: while
+		// the leader has not logged anything yet the workload waits for the handshake to finish.
+		e.info.excludedEmptyRingJoin++
+		for i := 0; i < 1000; i++ {
+			s.proxy.mu.Lock()
+			done := s.proxy.fullSyncs+s.proxy.resumes > 0
+			s.proxy.mu.Unlock()
+			mgr := e.leader.inst.slock.replicationManager
+			mgr.glock.Lock()
+			done = done && len(mgr.serverChannels) > 0
+			mgr.glock.Unlock()
+			if done {
+				break
+			}
+			time.Sleep(2 * time.Millisecond)
+		}
+	}
 	return nil
 }
 
@@ -1546,7 +1577,13 @@ func (e *n09Env) syncAndCheck(final bool) (key, violation, inconclusive string) 
 			}
 			s.proxy.mu.Unlock()
 			note := ""
-			if key == "C09:follower-state-diverges" {
+			s.proxy.mu.Lock()
+			twice := s.proxy.sentTwice
+			s.proxy.mu.Unlock()
+			if key == "C09:follower-state-diverges" && twice != "" {
+				key = n09KeyFirstTwice
+				note = "    " + twice + "\n"
+			} else if key == "C09:follower-state-diverges" {
 				if ref, rerr := e.referenceState(); rerr == nil {
 					if rd := n09CompareState(ref, fol); rd == "" {
 						key = n09KeyCompactedLog
